@@ -14,7 +14,10 @@ TECHNIQUE = (
     "truncation order of the perturbative kernels measured by a scaling exponent"
 )
 RULE = (
-    "Hypothesis draws one of four kinds. iterate: order n 2..4, nf 3..6, couplings in [0.002,0.05] either order, "
+    "Hypothesis draws one of five kinds. short: order 2..4, a0 in [0.002,0.05], a1 = a0(1 +- eps) with eps "
+    "log-uniform in [1e-10, 1e-3], generic 2x2 tower, iterate-exact (1..40 iterations) or perturbative-exact (1..20 "
+    "iterations, max_order 12): ||E - E_ref|| / ||E_ref - 1|| <= 0.05 with E_ref - 1 from the ODE for D = E - 1 "
+    "(a vanishingly short but non-zero distance must still be evolved). iterate: order n 2..4, nf 3..6, couplings in [0.002,0.05] either order, "
     "generic complex non-commuting 2x2 tower |gamma_k| <~ 10^k, iterations N0 in 10..50; errors of "
     "singlet.dispatcher(iterate-exact) against the ODE solution at N0, 2N0, 4N0, 8N0 (<= 400) must shrink with "
     "observed order >= 1.7 per doubling and stay below 2 x the leading mid-point-rule error estimate (sum over steps "
@@ -27,7 +30,7 @@ RULE = (
     "couplings at the arithmetic mu^2 mid-point); errors of the dispatchers against the ODE solution with the "
     "continuous a_em(a_s) at N0, 2N0, 4N0 (step in ln mu^2 <= 0.5) must shrink with order >= 1.7 and stay below "
     "2 x the same estimate (plus the first-order term for the off-centre evaluation point). Non-trivial = ||[g0,g1]|| > 0.1 ||g0|| ||g1|| (QED: of the two lowest "
-    "non-zero coefficients) and |ln(a1/a0)| >= 0.3; distinct by the full case."
+    "non-zero coefficients) and |ln(a1/a0)| >= 0.3 (short: a1 != a0 instead); distinct by the full case."
 )
 ASSUMPTIONS = [
     "reference ODE as in DGLAP.rst (gamma = -M[P], beta_k > 0; sign fixed by the LO closed form, reproduced to 4e-16); "
@@ -46,6 +49,10 @@ ASSUMPTIONS = [
     "perturbative: the U series is truncated at a^(m-1), so the error is O(a^m) (documented meaning of "
     "ev_op_max_order); the flat 1e-8 of DESIGN at (12, 20) only holds for a_max <= 0.03 (measured 1.4e-5 at 0.05), "
     "hence the a^12 scaling; single-step monotonicity in m is violated by correct code (up to x2.7 at a = 0.05)",
+    "short distances: reference D = E - 1 from dD/ds = M (1 + D) in s = ln(a/a0) up to log1p((a1-a0)/a0), DOP853 "
+    "rtol 1e-13 / atol 1e-30, i.e. accurate relative to D; tolerance 0.05 relative to ||D|| = 20 x the largest value "
+    "measured on the unchanged tree over eps in [1e-10, 1e-3] (2.3e-3, perturbative-exact truncation at a = 0.05; "
+    "3e-4 iterate-exact, rounding of an O(eps) difference); returning the identity gives 1",
     "scaling exponents use the decision rule of C08 (vf/refs/k2_scaling.py; noise floor 1e-13, slack 0.25, trend "
     "confirmation)",
     "towers with relative eigenvalue gap of gamma_0 < 1e-2 are outside the domain of the closed 2x2 exponential "
@@ -57,7 +64,8 @@ LEVEL_TEXT = (
 )
 
 # small integers are favoured by Hypothesis: the kind listed first is drawn most often
-KINDS = ["perturbative", "iterate", "qed-singlet", "qed-valence", "perturbative"]
+KINDS = ["perturbative", "short", "iterate", "qed-singlet", "qed-valence", "perturbative", "short"]
+TOL_SHORT = 0.05
 SAFETY = 2.0  # measured error / leading-order estimate: 0.30 .. 0.69 (QCD and QED) on the unchanged tree
 ORDER_MIN = 1.7
 
@@ -75,6 +83,17 @@ def strategy(tier):
     @st.composite
     def build(draw):
         kind = KINDS[draw(st.integers(0, 10**6)) % len(KINDS)]
+        if kind == "short":
+            # very short but non-zero evolution distance: a1 = a0 (1 +- eps), eps log-uniform over 1e-10 .. 1e-3
+            n = draw(st.integers(2, 4))
+            a0 = draw(S.log_floats(0.002, 0.05))
+            eps = draw(S.log_floats(1e-10, 1e-3))
+            a1 = a0 * (1.0 + eps) if draw(st.booleans()) else a0 * (1.0 - eps)
+            case = {"kind": kind, "nf": draw(st.integers(3, 6)), "a": [a0, a1], "eps": eps, "order": n}
+            case["tower"] = draw(G.generic_tower(n))
+            case["method"] = draw(st.sampled_from(["iterate-exact", "perturbative-exact"]))
+            case["its"] = draw(st.integers(1, 40 if case["method"] == "iterate-exact" else 20))
+            return case
         case = {"kind": kind, "nf": draw(st.integers(3, 6)), "a": draw(G.couplings(0.3))}
         if kind in ("iterate", "perturbative"):
             n = draw(st.integers(2, 4))
@@ -254,11 +273,48 @@ def _check_qed(case, res):
     return res
 
 
+def _check_short(case, res):
+    """Short distances: the error is measured relative to the evolution itself, ||E - 1||."""
+    import numpy as np
+
+    from eko.kernels import EvoMethods
+    from eko.kernels import singlet as s
+    from vf.refs import k2_gen as G
+    from vf.refs import k2_ode as R
+
+    n, nf, mname, its = case["order"], case["nf"], case["method"], case["its"]
+    a0, a1 = case["a"]
+    g = G.build(case["tower"])
+    if G.eig_gap(g[0]) < 1e-2:
+        return CaseResult(discarded="gamma_0 with (nearly) degenerate eigenvalues")
+    res.nontrivial = a1 != a0 and R.commutator_size(g[0], g[1]) > 0.1
+    res.classes.append(f"short/{mname}")
+    res.classes.append(f"short/eps=1e{math.floor(math.log10(case['eps']))}")
+    method = EvoMethods.ITERATE_EXACT if mname == "iterate-exact" else EvoMethods.PERTURBATIVE_EXACT
+    try:
+        E = np.asarray(s.dispatcher((n, 0), method, g, a1, a0, nf, its, (12, 0)))
+    except Exception as e:  # noqa: BLE001 - exceptions of the code under test are verdicts
+        return res.fail(exc_bucket(f"{ID}/call/short/{mname}/order={n}", e), repr(e))
+    D = R.singlet_ode_minus_one(g, a1, a0, nf)
+    nd = R.fro(D)
+    err = R.fro(E - np.eye(2) - D) / nd
+    if not err <= TOL_SHORT:
+        res.fail(
+            f"{ID}/short-distance/{mname}",
+            f"singlet {mname} order {n} nf={nf} its={its} a0={a0} a1={a1} (eps={case['eps']:.3e}): "
+            f"||E - E_ref|| / ||E_ref - 1|| = {err:.3e} > {TOL_SHORT} (||E_ref - 1|| = {nd:.3e}, ||E - 1|| = "
+            f"{R.fro(E - np.eye(2)):.3e})",
+        )
+    return res
+
+
 def check_case(case):
     kind = case["kind"]
     order = case["order"]
     res = CaseResult(classes=[f"{kind}/order={order if isinstance(order, int) else tuple(order)}"])
     try:
+        if kind == "short":
+            return _check_short(case, res)
         if kind in ("iterate", "perturbative"):
             return _check_qcd(case, res)
         return _check_qed(case, res)
